@@ -85,7 +85,7 @@ def make_case(seed, idx):
         cfg['W'] = W
         p, argv = gen.gen_program(rnd, cfg)
     if idx % 5 == 4:
-        fk = rnd.choice(('div', 'idx_read', 'idx_write', 'idx_aug', 'str_idx'))
+        fk = rnd.choice(('div', 'idx_read', 'idx_write', 'idx_aug', 'str_idx', 'bad_len', 'bad_len'))
         p2, info = faults.plant(rnd, p, fk, W, True)
         if p2 is not None:
             p = p2
@@ -161,10 +161,21 @@ def case(seed, idx, tier):
                 common.add_counters(res, ev_s)
                 if probs:
                     bad = (probs, ev_s, cfg_s)
+    if (not found and N is None and ev.res is not None and ref.outcome == 'ERROR' and ref.error_kind == 'stack_overflow'
+            and ev.res.outcome == 'ERROR'):
+        # a bad dynamic length: must be refused at every stack size, with an intact prefix
+        for s in (0, 3, 10, 50, 200, 1000):
+            probs, ev_s, cfg_s = judge_size(p, argv, W, s, ref, kind, 10 ** 9, poison=idx * 1000 + s + 1)
+            sizes_run += 1
+            common.add_counters(res, ev_s)
+            below += 1
+            if probs and bad is None:
+                bad = (probs, ev_s, cfg_s)
+        res['counters']['bad_length_programs'] = 1
     res['counters']['sizes_run'] = sizes_run
     res['faults_fired']['stack_exhaust'] = below
     res['faults_fired']['poison'] = sizes_run
-    res['nontrivial'] = bool(N and below)
+    res['nontrivial'] = bool((N or res['counters'].get('bad_length_programs')) and below)
     res['digest'] = digest(res['key'], N, below, bad[0] if bad else None)
     if idx < 2:
         res['sample'] = dict(common.sample_of(p, argv, ev, 1500), need_words=N, sizes_run=sizes_run, kind=kind)
